@@ -24,6 +24,9 @@ pub enum ListFault {
     Truncate(usize),
     /// append a copy of element 0 with one more byte (a "coalesced" chunk)
     ExtendElem(usize),
+    /// move the last octet of element i to the front of element i + 1: the concatenation of
+    /// the list is unchanged, its framing is not
+    ShiftBoundary(usize),
 }
 
 impl ListFault {
@@ -36,6 +39,7 @@ impl ListFault {
             ListFault::Insert(..) => "elem_insert",
             ListFault::Truncate(..) => "list_truncate",
             ListFault::ExtendElem(..) => "elem_extend",
+            ListFault::ShiftBoundary(..) => "elem_boundary_shift",
         }
     }
     pub fn apply(&self, l: &mut Vec<Bytes>, seed: u64) {
@@ -56,6 +60,7 @@ impl ListFault {
             ListFault::Insert(i) => { let i = i.min(l.len()); l.insert(i, bytes_for(seed, b"inserted", i as u64, 9)); }
             ListFault::Truncate(n) => l.truncate(n),
             ListFault::ExtendElem(i) => { if let Some(e) = l.get_mut(i) { e.push(0x00); } }
+            ListFault::ShiftBoundary(i) => { if i + 1 < l.len() { if let Some(b) = l[i].pop() { l[i + 1].insert(0, b); } } }
         }
     }
     /// every single-element fault of a list of length n (complete catalogue for small n)
@@ -70,6 +75,7 @@ impl ListFault {
         }
         for i in 0..=n { v.push(ListFault::Insert(i)); }
         for k in 0..n { v.push(ListFault::Truncate(k)); }
+        for i in 0..n.saturating_sub(1) { v.push(ListFault::ShiftBoundary(i)); }
         v
     }
     /// the faults at the ends of a list of length n (first / last element, append, cut the tail,
@@ -78,7 +84,7 @@ impl ListFault {
     pub fn edges(n: usize) -> Vec<ListFault> {
         if n == 0 { return vec![ListFault::Insert(0)]; }
         let mut v = vec![ListFault::Alter(n - 1, 2), ListFault::Alter(n - 1, 0), ListFault::Alter(0, 0), ListFault::Drop(n - 1), ListFault::Dup(n - 1), ListFault::ExtendElem(n - 1), ListFault::Insert(n), ListFault::Insert(0), ListFault::Truncate(n - 1), ListFault::Drop(0)];
-        if n >= 2 { v.push(ListFault::Swap(0, n - 1)); v.push(ListFault::Swap(n - 2, n - 1)); v.push(ListFault::Alter(n - 2, 1)); }
+        if n >= 2 { v.push(ListFault::Swap(0, n - 1)); v.push(ListFault::Swap(n - 2, n - 1)); v.push(ListFault::Alter(n - 2, 1)); v.push(ListFault::ShiftBoundary(n - 2)); v.push(ListFault::ShiftBoundary(0)); }
         if n >= 5 { v.push(ListFault::Alter(n - 3, 2)); v.push(ListFault::Alter(n - 4, 0)); v.push(ListFault::Truncate(n - 3)); }
         v
     }
@@ -110,6 +116,9 @@ pub enum OctFault {
     Replace,
     /// present non-empty -> absent
     Remove,
+    /// insert one octet (a blank, a newline) at position class 0 = after the first octet,
+    /// 1 = middle, 2 = end: what a re-serialising intermediary does to a structured header
+    InsertByte(u8, u8),
 }
 
 impl OctFault {
@@ -121,10 +130,11 @@ impl OctFault {
             OctFault::ExtendBy(_) => "oct_extend",
             OctFault::Replace => "oct_replace",
             OctFault::Remove => "oct_remove",
+            OctFault::InsertByte(..) => "oct_insert_blank",
         }
     }
     pub fn all() -> Vec<OctFault> {
-        vec![OctFault::Toggle, OctFault::AlterByte(0), OctFault::AlterByte(1), OctFault::AlterByte(2), OctFault::TruncateBy(1), OctFault::ExtendBy(1), OctFault::ExtendBy(3), OctFault::Replace, OctFault::Remove]
+        vec![OctFault::Toggle, OctFault::AlterByte(0), OctFault::AlterByte(1), OctFault::AlterByte(2), OctFault::TruncateBy(1), OctFault::ExtendBy(1), OctFault::ExtendBy(3), OctFault::Replace, OctFault::Remove, OctFault::InsertByte(0, b' '), OctFault::InsertByte(1, b' '), OctFault::InsertByte(2, b'\n')]
     }
     pub fn apply(&self, o: &mut Opt, seed: u64) {
         match *self {
@@ -140,6 +150,7 @@ impl OctFault {
             OctFault::ExtendBy(k) => { let mut v = o.take().unwrap_or_default(); v.extend(std::iter::repeat(0u8).take(k)); *o = Some(v); }
             OctFault::Replace => { let n = o.as_ref().map(|v| v.len()).filter(|&n| n > 0).unwrap_or(5); *o = Some(bytes_for(seed, b"replaced", n as u64, n)); }
             OctFault::Remove => { *o = None; }
+            OctFault::InsertByte(cls, b) => { let mut v = o.take().unwrap_or_default(); let p = match cls { 0 => 1.min(v.len()), 1 => v.len() / 2, _ => v.len() }; v.insert(p, b); *o = Some(v); }
         }
     }
 }
